@@ -116,6 +116,43 @@ def run(tier: str, seed: int) -> int:
             res.count("encode:" + ("member" if member else "foreign") + ":" + ("ok" if "ok" in impl else impl["err"]))
             if impl != model and not suitio.same_err(impl, model):
                 res.mismatches.append({"op": "suit.encode", "space": sp, "name": n, "impl": impl, "model": model})
+            if member and kind == "keyValue" and "ok" in impl:
+                # the two alphabets do not mix: in CBOR a member is its code, never a text key spelled like its name; in a description it is its name,
+                # never its number (C08-t)
+                import cbor2 as _c2
+                try:
+                    dec = _c2.loads(ib)
+                    items = list(dec.items()) if hasattr(dec, "items") else []
+                except Exception:  # noqa
+                    items = []
+                # (a class that also holds text-keyed members - the envelope with its integrated payloads - takes a text key for a payload name)
+                has_text_members = any(m_ for _n, _i, _c, m_ in descs[id(cls)][2][0])
+                if len(items) == 1 and items[0][0] == names[n] and not has_text_members:
+                    try:
+                        alt = _c2.dumps({n: items[0][1]})
+                    except Exception:  # noqa
+                        alt = None
+                    if alt is not None:
+                        try:
+                            cls.from_cbor(alt)
+                            acc = True
+                        except BaseException:  # noqa
+                            acc = False
+                        res.case([sp, n, "text-key-in-cbor"])
+                        res.count("alphabet:text-key-in-cbor:" + ("accepted" if acc else "rejected"))
+                        if acc:
+                            res.spec_failures.append({"space": sp, "name": n, "code": names[n], "bytes": alt.hex(),
+                                                      "what": "a CBOR map key that is a text string spelled like the member's name is accepted in place of the registered code"})
+                try:
+                    cls.from_obj({names[n]: __import__("copy").deepcopy(obj[n])})
+                    acc = True
+                except BaseException:  # noqa
+                    acc = False
+                res.case([sp, n, "code-in-description"])
+                res.count("alphabet:code-in-description:" + ("accepted" if acc else "rejected"))
+                if acc:
+                    res.spec_failures.append({"space": sp, "name": n, "code": names[n], "description": str({names[n]: obj[n]})[:200],
+                                              "what": "a description key that is the member's registered number is accepted in place of its name"})
             if not member:
                 if "ok" in impl:
                     res.spec_failures.append({"space": sp, "name": n, "impl": impl, "what": "a name foreign to this key space is accepted"})
